@@ -63,6 +63,14 @@ NOTES = {
     "C09_6": ("MISSED by C09 at first run (caught by C20): the C09 harness hands claim EVENTS to the bridge store",
               "C09 has a second part (props/c03_claims.py run under C09): C20's harness stream (real ClaimEvent handlers and calldata search, mixed "
               "multi-claim transactions with a mainnet and a rollup-0 claim of the same deposit number) judged by C20Cases.spec"),
+    "C05_6": ("only no-failing-input-found at first run (the mock node gave every log its own transaction, so ordering by TxIndex was log order)",
+              "harness/c05: the mock node puts two logs into each transaction (TxIndex = log index / 2), as when several watched contracts log in one transaction"),
+    "C13_6": ("only no-failing-input-found at first run (three random cases differed from the model; no scenario had a locally closed record that the Agglayer reopened)",
+              "harness/c13: scenario cases in which the local record says InError while the Agglayer holds the same certificate as pending / proven / "
+              "candidate / settled (12 cases): the record must follow the Agglayer and no replacement may be built while it is undecided"),
+    "C14_6": ("only no-failing-input-found at first run (facade queries were asked with zero arguments only, which no earlier lookup could have answered)",
+              "harness/c14: every query that takes a hash is also asked with each hash the facade itself returned in healthy states (up to six: exit "
+              "roots, L1 info roots, global exit roots ...); data from any of them while halted is data"),
     "C16_4": ("caught at first run by C16; MISSED by the GER-store part of C04",
               "C04 GER-store part: every query is now also asked right before each reorg"),
 }
